@@ -1116,13 +1116,13 @@ func main() {
 		for _, k := range templateKeys {
 			specs = append(specs, caseSpec{Mode: "stop", Template: k, NShards: 1 + r.Intn(2), Seed: r.U64(), ShardMerging: true})
 		}
-		for i := 0; i < f.N(14, 400); i++ {
+		for i := 0; i < f.N(14, 120); i++ {
 			specs = append(specs, randomSpec(r, "stop"))
 		}
-		for i := 0; i < f.N(30, 600); i++ {
+		for i := 0; i < f.N(30, 200); i++ {
 			specs = append(specs, randomSpec(r, "fault"))
 		}
-		for i := 0; i < f.N(2, 40); i++ {
+		for i := 0; i < f.N(2, 15); i++ {
 			cs := randomSpec(r, "kill")
 			cs.KillAt = 1 + r.Intn(4)
 			specs = append(specs, cs)
